@@ -230,6 +230,70 @@ def check_warmup(ctx) -> None:
             ctx.bad("C16.warmup", fn, va[0] if va else fn.node, "the stepped variable pair is not (forward, reverse) of reaction i")
 
 
+def check_argument_names(ctx) -> None:
+    """An argument variable that is named like a parameter of the callee is bound to that parameter. (A seed handed
+    over positionally to a constructor whose third parameter is `nproj` seeds nothing: the chain starts from the clock.)"""
+    from ..effects import bind_args
+
+    prog, inf = ctx.prog, ctx.inf
+    n = 0
+    for fn in prog.all_funcs():
+        if not fn.qualname.startswith("cobra.sampling."):
+            continue
+        for c in walk_local(fn.node):
+            if not isinstance(c, ast.Call) or not c.args:
+                continue
+            for callee, recv in inf.call_targets(fn, c):
+                if callee.name == "__init__" or callee.is_method:
+                    skip_self = True
+                else:
+                    skip_self = False
+                try:
+                    bound = bind_args(callee, c, skip_self=skip_self)
+                except Exception:
+                    continue
+                params = set(callee.params)
+                for p, arg in bound.items():
+                    if p == "__unbound__" or not isinstance(arg, ast.Name) or arg not in c.args:
+                        continue
+                    n += 1
+                    if arg.id in params and arg.id != p:
+                        ctx.bad("C16.random", fn, c, f"`{arg.id}` is handed to {callee.short} positionally and lands in its parameter `{p}`; the callee's own `{arg.id}` keeps its default" + (": the chain is seeded from the clock, so the same seed gives different samples" if arg.id == "seed" else ""))
+                    else:
+                        ctx.ok("C16.random", fn, c, f"positional `{arg.id}` -> parameter `{p}` of {callee.short}", nontrivial=False)
+    if n == 0:
+        raise AnalysisError("C16: no positional arguments found in the sampling package")
+
+
+def check_matrix_handling(ctx) -> None:
+    """(a) `x.reshape(x.shape[::-1])` is not a transpose: for the (n, 2) bounds arrays it scrambles which number is the
+    lower and which the upper bound of a constraint as soon as n > 1. (b) A matrix in solver-variable space is never
+    projected to reaction space by taking the forward columns alone: flux = forward - reverse needs both."""
+    prog = ctx.prog
+    n = 0
+    for fn in prog.all_funcs():
+        if not fn.qualname.startswith("cobra.sampling."):
+            continue
+        for c in walk_local(fn.node):
+            if isinstance(c, ast.Call) and isinstance(c.func, ast.Attribute) and c.func.attr == "reshape" and c.args:
+                n += 1
+                if any(isinstance(x, ast.Subscript) and isinstance(x.slice, ast.Slice) and x.slice.step is not None and norm(x.slice.step) == "-1" and "shape" in norm(x.value) for a in c.args for x in ast.walk(a)):
+                    ctx.bad("C16.bounds", fn, c, f"`{norm(c)}` reshapes to the reversed shape, which is not a transpose: rows and columns are re-read in memory order, so lower and upper bounds of different constraints are mixed")
+                else:
+                    ctx.ok("C16.bounds", fn, c, "reshape to an explicit shape", nontrivial=False)
+            if isinstance(c, ast.Subscript) and isinstance(c.ctx, ast.Load):
+                txt = norm(c.slice)
+                if "fwd_idx" in txt and "rev_idx" not in txt and "[i]" not in txt and "fwd_idx[" not in txt:
+                    n += 1
+                    st = enclosing_stmt(c)
+                    if "rev_idx" in norm(st, 400):
+                        ctx.ok("C16.map", fn, st, "forward columns are used together with the reverse columns", nontrivial=False)
+                    else:
+                        ctx.bad("C16.map", fn, st, f"`{norm(c)}` takes the forward columns alone: in reaction space a flux is forward minus reverse, so every term that sits in a reverse column (e.g. a reaction fixed at a negative flux) is lost")
+    if n == 0:
+        raise AnalysisError("C16: no reshape / forward-column selections found")
+
+
 def run(ctx) -> None:
     ctx.rule("C16.private", "T8: the sampler works on a private copy of the model", floor=1)
     ctx.rule("C16.map", "T5: index maps and column names come from the same iteration; flux = forward - reverse", floor=6)
@@ -252,5 +316,7 @@ def run(ctx) -> None:
     check_map(ctx)
     check_bounds(ctx)
     check_random(ctx)
+    ctx.guard(check_argument_names, ctx)
+    ctx.guard(check_matrix_handling, ctx)
     check_count(ctx)
     check_warmup(ctx)
